@@ -1,12 +1,382 @@
 package sym
 
-import "regexp"
+// C19 machinery: the alphabet Sigma, case tables generated from Go's unicode package, and
+// symbolic simulation of regexp/syntax programs (Thompson NFA) over rune vectors.
 
-func (r *Run) runesMap(s value, which string) value       { panic(unsupported("case mapping of symbolic string")) }
-func (r *Run) runesEqualFold(a, b value) value             { panic(unsupported("EqualFold of symbolic string")) }
-func (r *Run) dfaMatch(re *regexp.Regexp, s runesV) value  { panic(unsupported("dfa match")) }
-func (r *Run) compileSymRegexp(e value) value              { panic(unsupported("regexp.Compile of symbolic expression")) }
-func (r *Run) quoteMetaSym(s value) value                  { panic(unsupported("QuoteMeta of symbolic string")) }
+import (
+	"fmt"
+	"regexp"
+	"regexp/syntax"
+	"sort"
+	"strings"
+	"sync"
+	"unicode"
+)
+
+var (
+	sigmaOnce sync.Once
+	sigma     []rune
+	lowerTab  = map[rune]rune{}
+	upperTab  = map[rune]rune{}
+	foldTab   = map[rune]rune{} // canonical representative (minimum) of the SimpleFold orbit
+)
+
+func orbit(c rune) []rune {
+	o := []rune{c}
+	for r := unicode.SimpleFold(c); r != c; r = unicode.SimpleFold(r) {
+		o = append(o, r)
+	}
+	return o
+}
+
+// ExtraSigma lets the driver add catalogue-derived code points (class boundaries) before first use.
+var ExtraSigma []rune
+
+// Sigma returns the finite alphabet: printable ASCII, newline/tab, every code point on which
+// lower-casing and simple folding induce different equivalences (computed from Go's tables),
+// a few ordinary non-ASCII letters, ExtraSigma; closed under ToLower/ToUpper/SimpleFold.
+func Sigma() []rune {
+	sigmaOnce.Do(func() {
+		set := map[rune]bool{}
+		for c := rune(32); c < 127; c++ {
+			set[c] = true
+		}
+		set['\n'], set['\t'] = true, true
+		for c := rune(0); c <= 0x1FFFF; c++ {
+			o := orbit(c)
+			if len(o) == 1 && unicode.ToLower(c) == c && unicode.ToUpper(c) == c {
+				continue
+			}
+			ls := map[rune]bool{}
+			for _, x := range o {
+				ls[unicode.ToLower(x)] = true
+			}
+			inOrbit := func(x rune) bool {
+				for _, y := range o {
+					if y == x {
+						return true
+					}
+				}
+				return false
+			}
+			if len(ls) > 1 || !inOrbit(unicode.ToLower(c)) || !inOrbit(unicode.ToUpper(c)) {
+				for _, x := range o {
+					set[x] = true
+				}
+				set[unicode.ToLower(c)] = true
+				set[unicode.ToUpper(c)] = true
+			}
+		}
+		for _, c := range []rune{'é', 'É', 'ж', 'Ж', 'ß', '世', 0x0131, 0x0130, 0x212A, 0x017F, 0x03C2, 0x03C3, 0x03A3} {
+			set[c] = true
+		}
+		for _, c := range ExtraSigma {
+			if c >= 0 && c <= unicode.MaxRune {
+				set[c] = true
+			}
+		}
+		// closure
+		for changed := true; changed; {
+			changed = false
+			for c := range set {
+				for _, x := range append(orbit(c), unicode.ToLower(c), unicode.ToUpper(c)) {
+					if !set[x] {
+						set[x] = true
+						changed = true
+					}
+				}
+			}
+		}
+		for c := range set {
+			sigma = append(sigma, c)
+		}
+		sort.Slice(sigma, func(i, j int) bool { return sigma[i] < sigma[j] })
+		for _, c := range sigma {
+			lowerTab[c] = unicode.ToLower(c)
+			upperTab[c] = unicode.ToUpper(c)
+			m := c
+			for _, x := range orbit(c) {
+				if x < m {
+					m = x
+				}
+			}
+			foldTab[c] = m
+		}
+	})
+	return sigma
+}
+
+// PredefinedFuns are defined in the solver prelude (define-fun), not declared.
+var PredefinedFuns = map[string]bool{}
+
+func tableFun(name string, tab map[rune]rune) string {
+	var sb strings.Builder
+	fmt.Fprintf(&sb, "(define-fun %s ((c Int)) Int ", smtName(name))
+	n := 0
+	for _, c := range Sigma() {
+		if tab[c] != c {
+			fmt.Fprintf(&sb, "(ite (= c %d) %d ", c, tab[c])
+			n++
+		}
+	}
+	sb.WriteString("c")
+	sb.WriteString(strings.Repeat(")", n))
+	sb.WriteString(")")
+	return sb.String()
+}
+
+// C19Prelude returns the define-funs for lower / upper / foldcanon restricted to Sigma.
+func C19Prelude() string {
+	PredefinedFuns["lower"], PredefinedFuns["upper"], PredefinedFuns["foldc"] = true, true, true
+	return tableFun("lower", lowerTab) + "\n" + tableFun("upper", upperTab) + "\n" + tableFun("foldc", foldTab)
+}
+
+func inSigma(c *Term) *Term {
+	s := Sigma()
+	var alts []*Term
+	for i := 0; i < len(s); {
+		j := i
+		for j+1 < len(s) && s[j+1] == s[j]+1 {
+			j++
+		}
+		if i == j {
+			alts = append(alts, Eq(c, IntT(int64(s[i]))))
+		} else {
+			alts = append(alts, And(Le(IntT(int64(s[i])), c), Le(c, IntT(int64(s[j])))))
+		}
+		i = j + 1
+	}
+	return Or(alts...)
+}
+
+func applyTab(name string, tab map[rune]rune, c *Term) *Term {
+	if c.IsConst() {
+		if v, ok := tab[rune(c.I)]; ok {
+			return IntT(int64(v))
+		}
+		switch name {
+		case "lower":
+			return IntT(int64(unicode.ToLower(rune(c.I))))
+		case "upper":
+			return IntT(int64(unicode.ToUpper(rune(c.I))))
+		default:
+			m := rune(c.I)
+			for _, x := range orbit(rune(c.I)) {
+				if x < m {
+					m = x
+				}
+			}
+			return IntT(int64(m))
+		}
+	}
+	return UF(name, SInt, c)
+}
+
+func (r *Run) runesMap(s value, which string) value {
+	v := toRunes(s)
+	if v.bytes {
+		// ASCII byte vectors (bytes 1..127): case mapping is bytewise
+		v = runesV{v.cps, false}
+	}
+	tab := lowerTab
+	if which == "upper" {
+		tab = upperTab
+	}
+	Sigma()
+	out := make([]*Term, len(v.cps))
+	for i, c := range v.cps {
+		out[i] = applyTab(which, tab, c)
+	}
+	return runesV{out, toRunes(s).bytes}.norm()
+}
+
+func (r *Run) runesEqualFold(a, b value) value {
+	m := vecMode(a, b)
+	x, y := vecOf(a, m), vecOf(b, m)
+	if len(x.cps) != len(y.cps) {
+		return false
+	}
+	Sigma()
+	var cs []*Term
+	for i := range x.cps {
+		cs = append(cs, Eq(applyTab("foldc", foldTab, x.cps[i]), applyTab("foldc", foldTab, y.cps[i])))
+	}
+	return simplifyBool(And(cs...))
+}
+
+// ---------------------------------------------------------------- regexp programs
+
+var (
+	progMu    sync.Mutex
+	progCache = map[string]*syntax.Prog{}
+)
+
+func progOf(expr string) *syntax.Prog {
+	progMu.Lock()
+	defer progMu.Unlock()
+	if p, ok := progCache[expr]; ok {
+		return p
+	}
+	re, err := syntax.Parse(expr, syntax.Perl)
+	if err != nil {
+		panic(unsupported("regexp/syntax.Parse: " + err.Error()))
+	}
+	p, err := syntax.Compile(re.Simplify())
+	if err != nil {
+		panic(unsupported("regexp/syntax.Compile: " + err.Error()))
+	}
+	progCache[expr] = p
+	return p
+}
+
+func isWordTerm(c *Term) *Term {
+	return Or(And(Le(IntT('0'), c), Le(c, IntT('9'))), And(Le(IntT('A'), c), Le(c, IntT('Z'))),
+		And(Le(IntT('a'), c), Le(c, IntT('z'))), Eq(c, IntT('_')))
+}
+
+func runeCond(inst *syntax.Inst, c *Term) *Term {
+	switch inst.Op {
+	case syntax.InstRuneAny:
+		return TTrue
+	case syntax.InstRuneAnyNotNL:
+		return Not(Eq(c, IntT('\n')))
+	case syntax.InstRune1:
+		return Eq(c, IntT(int64(inst.Rune[0])))
+	case syntax.InstRune:
+		rs := inst.Rune
+		if len(rs) == 1 {
+			r0 := rs[0]
+			alts := []*Term{Eq(c, IntT(int64(r0)))}
+			if syntax.Flags(inst.Arg)&syntax.FoldCase != 0 {
+				for r1 := unicode.SimpleFold(r0); r1 != r0; r1 = unicode.SimpleFold(r1) {
+					alts = append(alts, Eq(c, IntT(int64(r1))))
+				}
+			}
+			return Or(alts...)
+		}
+		var alts []*Term
+		for i := 0; i+1 < len(rs); i += 2 {
+			if rs[i] == rs[i+1] {
+				alts = append(alts, Eq(c, IntT(int64(rs[i]))))
+			} else {
+				alts = append(alts, And(Le(IntT(int64(rs[i])), c), Le(c, IntT(int64(rs[i+1])))))
+			}
+		}
+		return Or(alts...)
+	}
+	panic(unsupported(fmt.Sprintf("regexp instruction %v", inst.Op)))
+}
+
+// nfaMatch: does the (unanchored) program match somewhere in the rune vector? Returns a Bool term.
+func nfaMatch(prog *syntax.Prog, cps []*Term) *Term {
+	n := len(cps)
+	emptyCond := func(op syntax.EmptyOp, pos int) *Term {
+		var cs []*Term
+		before := func() *Term { // is there a word char before pos
+			if pos == 0 {
+				return TFalse
+			}
+			return isWordTerm(cps[pos-1])
+		}
+		after := func() *Term {
+			if pos == n {
+				return TFalse
+			}
+			return isWordTerm(cps[pos])
+		}
+		if op&syntax.EmptyBeginText != 0 {
+			cs = append(cs, BoolT(pos == 0))
+		}
+		if op&syntax.EmptyEndText != 0 {
+			cs = append(cs, BoolT(pos == n))
+		}
+		if op&syntax.EmptyBeginLine != 0 {
+			if pos != 0 {
+				cs = append(cs, Eq(cps[pos-1], IntT('\n')))
+			}
+		}
+		if op&syntax.EmptyEndLine != 0 {
+			if pos != n {
+				cs = append(cs, Eq(cps[pos], IntT('\n')))
+			}
+		}
+		if op&syntax.EmptyWordBoundary != 0 {
+			cs = append(cs, Not(Eq(before(), after())))
+		}
+		if op&syntax.EmptyNoWordBoundary != 0 {
+			cs = append(cs, Eq(before(), after()))
+		}
+		return And(cs...)
+	}
+	var add func(set map[uint32]*Term, pc uint32, cond *Term, pos int, visiting map[uint32]bool)
+	add = func(set map[uint32]*Term, pc uint32, cond *Term, pos int, visiting map[uint32]bool) {
+		if cond == TFalse || visiting[pc] {
+			return
+		}
+		visiting[pc] = true
+		defer delete(visiting, pc)
+		inst := &prog.Inst[pc]
+		switch inst.Op {
+		case syntax.InstFail:
+		case syntax.InstAlt, syntax.InstAltMatch:
+			add(set, inst.Out, cond, pos, visiting)
+			add(set, inst.Arg, cond, pos, visiting)
+		case syntax.InstNop, syntax.InstCapture:
+			add(set, inst.Out, cond, pos, visiting)
+		case syntax.InstEmptyWidth:
+			add(set, inst.Out, And(cond, emptyCond(syntax.EmptyOp(inst.Arg), pos)), pos, visiting)
+		default:
+			if old, ok := set[pc]; ok {
+				set[pc] = Or(old, cond)
+			} else {
+				set[pc] = cond
+			}
+		}
+	}
+	matched := TFalse
+	cur := map[uint32]*Term{}
+	for i := 0; i <= n; i++ {
+		add(cur, uint32(prog.Start), TTrue, i, map[uint32]bool{})
+		var pcs []uint32
+		for pc := range cur {
+			pcs = append(pcs, pc)
+		}
+		sort.Slice(pcs, func(a, b int) bool { return pcs[a] < pcs[b] })
+		for _, pc := range pcs {
+			if prog.Inst[pc].Op == syntax.InstMatch {
+				matched = Or(matched, cur[pc])
+			}
+		}
+		if i == n {
+			break
+		}
+		next := map[uint32]*Term{}
+		for _, pc := range pcs {
+			inst := &prog.Inst[pc]
+			switch inst.Op {
+			case syntax.InstRune, syntax.InstRune1, syntax.InstRuneAny, syntax.InstRuneAnyNotNL:
+				add(next, inst.Out, And(cur[pc], runeCond(inst, cps[i])), i+1, map[uint32]bool{})
+			}
+		}
+		cur = next
+	}
+	return matched
+}
+
+func (r *Run) dfaMatch(re *regexp.Regexp, s runesV) value {
+	if s.bytes {
+		s = runesV{s.cps, false} // ASCII bytes are code points
+	}
+	return simplifyBool(nfaMatch(progOf(re.String()), s.cps))
+}
+
+// RegexpMembership is the reference used by oracles: membership of a rune vector in expr.
+func RegexpMembership(expr string, cps []*Term) *Term { return nfaMatch(progOf(expr), cps) }
+
+func (r *Run) compileSymRegexp(e value) value {
+	panic(unsupported("regexp.Compile of symbolic expression"))
+}
+func (r *Run) quoteMetaSym(s value) value { panic(unsupported("QuoteMeta of symbolic string")) }
 func (r *Run) symRegexpMatch(fr *frame, so *symRegexp, subj value) value {
 	panic(unsupported("symbolic regexp match"))
 }
